@@ -77,7 +77,9 @@ reg(PropertySpec(
 
 reg(PropertySpec(
     "C04", "Parameter transforms are bijections with exact log-Jacobians",
-    functions=["transforms:CompositeTransform.__init__"],
+    functions=["transforms:CompositeTransform.__init__", "transforms:CompositeTransform.forward", "transforms:CompositeTransform.inverse", "transforms:CompositeTransform.fit",
+               "transforms:PeriodicTransform.fit", "transforms:BoundedTransform.fit", "transforms:ProbitTransform.fit", "transforms:LogitTransform.fit"],
+    extra_static=_lazy1("contracts.transforms", "composite_roundtrip_lemma_static"),
     lean=["C04.lean"],
     native=_lazy("checks.native_misc", "native_C04"),
     technique="contract-based deductive verification: every element-wise map (logit, sigmoid, unit-interval scaling, LogitTransform, ProbitTransform, PeriodicTransform, AffineTransform forward/inverse and their log-Jacobians) is translated from the ast to Lean on every run; bijection, HasDerivAt = exp(log-Jacobian), inverse log-Jacobian = -forward, wrap range/congruence are Lean/Mathlib theorems; composition order and log-Jacobian summation of CompositeTransform by symbolic execution (z3); bounded native stand-in",
@@ -222,7 +224,8 @@ FLOWQ = ["flows.torch.flows:ZukoFlow.sample_and_log_prob", "flows.torch.flows:Zu
 
 reg(PropertySpec(
     "C03", "The fitted proposal is a normalised density; sampling and evaluation agree",
-    functions=FLOWQ + ["transforms:CompositeTransform.__init__"], lean=["C04.lean"],
+    functions=FLOWQ + ["transforms:CompositeTransform.__init__", "transforms:CompositeTransform.forward", "transforms:CompositeTransform.inverse"], lean=["C04.lean"],
+    extra_static=_lazy1("contracts.transforms", "composite_roundtrip_lemma_static"),
     native=_lazy("checks.native_misc", "native_C03"),
     technique="contract-based deductive verification of the flow wrappers: the real ZukoFlow/FlowJax sample_and_log_prob, log_prob and sample are executed symbolically with row-wise models of the neural flow and the data transform; obligations: log_q = base_lp(x') - logJ_inv(x'), log_prob = base_lp(T x) + logJ_fwd(x), and (using the data transform's C04 contract at the goal's row) the log-density returned with draws equals log_prob at those draws; draws inside the bounds from the Lean theorems about the generated inverse maps; bounded native agreement / quadrature / reload",
     trusted_base=["change of variables for densities (trusted mathematics): with T a bijection with exact log-Jacobian (C04) and a normalised base flow, log_prob is a normalised density"],
